@@ -510,6 +510,11 @@ def run(eng, run):
     from rules import c03
     run.attempt(c03.check_flow, eng, RuleAlias(run, "C08.recv"))
     run.attempt(c03.check_water_marks, eng, run, rule="C08.recv")
+    from rules import c04 as _c04, c12 as _c12
+    from sa.analyses.arms import check_crossed_keywords
+    run.attempt(_c12.check_fifo, eng, RuleAlias(run, "C08.locks"))  # the TLS write lock is the backend's fair lock: one holder at a time, waiters by identity
+    run.attempt(check_crossed_keywords, eng, run, "C08.conf", ("lowlevel.api_async.transports",), 2)  # handshake / shutdown timeouts reach the TLS layer uncrossed
+    run.attempt(_c04.check_latch_after_operation, eng, RuleAlias(run, "C08.conf"))  # a refused send_eof() over TLS must not make later writes fail
     run.end_of_rules()
 
 
